@@ -228,7 +228,8 @@ class TileManager(object):
                     tiles[created_tile.coord].source = created_tile.source
                     # meta tile creators return new tile objects: keep their "do not cache" mark
                     # (upstream errors mapped to uncached images must not be sent as cacheable)
-                    tiles[created_tile.coord].cacheable = bool(created_tile.cacheable)
+                    # and their timestamp and size (those of a stale tile belong to the old image)
+                    tiles[created_tile.coord].cacheable = created_tile.cacheable
 
         return tiles
 
@@ -450,6 +451,9 @@ class TileCreator(object):
                     source.as_buffer(self.tile_mgr.image_opts)
                 source.image_opts = self.tile_mgr.image_opts
                 tile.source = source
+                # timestamp and size of a stale tile that was loaded before belong to the old image
+                tile.timestamp = None
+                tile.size = None
                 tile.cacheable = source.cacheable
                 tile = self.tile_mgr.apply_tile_filter(tile)
                 if source.cacheable:
